@@ -177,7 +177,7 @@ class GridDriver:
                 return [-9]
 
         self.nneigh = getattr(self, "nneigh", 0) + 1
-        if self.nneigh % 4 == 0:
+        if self.nneigh % 2 == 1:
             try:
                 fn(tuple(c), r, inc, str)          # an unsupported return type: rejected (TypeError), and forgotten
             except Exception:  # noqa: BLE001
